@@ -227,24 +227,25 @@ def _choice_rule(chk, prog, S, LA):
     chk.exception(rule, "cfun_channel_choice", "multi-lock function: analysed with the dedicated (current, earlier-clauses) rule")
 
     def transfer(st, n):
+        """state (cur, prevheld): cur = the current clause's mutex is held; prevheld = mutexes of earlier clauses
+        are (possibly) still held - they join that set when a new clause is locked while cur is still held"""
         if n.k != "call":
             return st
         out = set()
-        for (cur, prevrel, taken) in st:
+        for (cur, prevheld, taken) in st:
             if n.callee == LOCK:
-                # a still-held mutex of the previous iteration joins the "earlier clauses" set
-                out.add((1, False, True))
+                out.add((1, prevheld or cur > 0, True))
             elif n.callee == UNLOCK:
-                out.add((max(cur - 1, -1), prevrel, taken))
+                out.add((max(cur - 1, -1), prevheld, taken))
             elif n.callee and n.callee.endswith("_with_lock"):
                 if cur > 0:
-                    out.add((cur - 1, prevrel, taken))
+                    out.add((cur - 1, prevheld, taken))
                 else:
-                    out.add((cur, True, taken))     # second loop: draining earlier clauses
+                    out.add((cur, prevheld, taken))
             elif n.callee == "chan_unlock_args":
-                out.add((cur, True, taken))
+                out.add((cur, False, taken))
             else:
-                out.add((cur, prevrel, taken))
+                out.add((cur, prevheld, taken))
         return frozenset(out)
 
     # drain loops: `for` statements whose body releases through *_with_lock and never locks
@@ -280,10 +281,10 @@ def _choice_rule(chk, prog, S, LA):
 
     def edge(st, blk, succ, cond, truth):
         if blk.term is not None and blk.term in drain and truth is False:
-            return frozenset((0, True, t) for (c, p, t) in st)
+            return frozenset((0, False, t) for (c, p, t) in st)
         return st
 
-    IN, OUT = flow.forward(fn, frozenset([(0, True, False)]), transfer, lambda a, b: a | b, edge=edge)
+    IN, OUT = flow.forward(fn, frozenset([(0, False, False)]), transfer, lambda a, b: a | b, edge=edge)
     nexits = 0
     for b, st in IN.items():
         blk = fn.blocks[b]
@@ -297,7 +298,7 @@ def _choice_rule(chk, prog, S, LA):
                                   "%s may raise while the mutexes of the select clauses are held" % n.text()[:50])
                 continue
             if n.k == "call" and n.callee not in (LOCK, UNLOCK, "chan_unlock_args"):
-                held = [s for s in st if s[0] > 0 or (s[2] and not s[1])]
+                held = [s for s in st if s[0] > 0 or s[1]]
                 if prog.is_noreturn(n.callee or "") and n.callee != "janet_await":
                     chk.instance(rule)
                     if held:
@@ -312,13 +313,13 @@ def _choice_rule(chk, prog, S, LA):
             if n.k == "return" or (n.k == "call" and n.callee == "janet_await"):
                 nexits += 1
                 chk.instance(rule)
-                bad = [s for s in st if s[0] != 0 or (s[2] and not s[1])]
+                bad = [s for s in st if s[0] != 0 or s[1]]
                 if bad:
                     what = []
                     if any(s[0] != 0 for s in bad):
                         what.append("the current clause's mutex is still held")
-                    if any(s[2] and not s[1] for s in bad):
-                        what.append("chan_unlock_args(argv, i) was not called for the earlier clauses")
+                    if any(s[1] for s in bad):
+                        what.append("the mutexes of earlier clauses still held (chan_unlock_args(argv, i) not called)")
                     chk.violation(rule, "ev.c", fn.name, "exit:%s" % (n.callee or "return"), n.loc,
                                   "ev/select leaves with " + " and ".join(what))
                 else:
